@@ -9,6 +9,9 @@
 (*   step         a chunk's number is not the successor of the previous    *)
 (*                chunk's number in its direction                          *)
 (*   interleaved  a chunk of another message inside an unfinished message  *)
+(* An event of type "ABORT" (written by the harness when a send call       *)
+(* returned the context error after some chunks of its message) closes the *)
+(* unfinished message of its direction; it carries no sequence number.     *)
 (*   stale        (AsIs only) the first bad step continues the counter of  *)
 (*                the instance that a renewal's OPN chunk superseded --    *)
 (*                the shape produced by Dev_GateGap / Dev_FailedRenewSeq   *)
@@ -45,8 +48,17 @@ L(d, e)  == IF Fresh(e) THEN None ELSE last[d]
 O(d, e)  == IF Fresh(e) THEN NoMsg ELSE open[d]
 S(d, e)  == IF Fresh(e) THEN None ELSE stale[d]
 
+Abort ==
+  /\ l <= Len(Log) /\ Log[l].type = "ABORT"
+  /\ LET e == Log[l] IN
+       /\ open' = [x \in Dirs |-> IF x = e.dir THEN NoMsg ELSE O(x, e)]
+       /\ last' = [x \in Dirs |-> L(x, e)] /\ stale' = [x \in Dirs |-> S(x, e)]
+       /\ verdict' = (IF Fresh(e) THEN "ok" ELSE verdict)
+       /\ at' = (IF Fresh(e) THEN 0 ELSE at) /\ cnt' = (IF Fresh(e) THEN 1 ELSE cnt + 1)
+       /\ tr' = e.tr /\ l' = l + 1
+
 Step ==
-  /\ l <= Len(Log)
+  /\ l <= Len(Log) /\ Log[l].type # "ABORT"
   /\ LET e == Log[l]
          d == e.dir
          pl == L(d, e)  po == O(d, e)  ps == S(d, e)
@@ -74,7 +86,7 @@ Step ==
                 /\ stale' = [x \in Dirs |-> IF x = d /\ e.type = "OPN" THEN (IF pl.set THEN pl ELSE Pred(Num(e))) ELSE S(x, e)]
         /\ l' = l + 1
 
-Next == Step
+Next == Step \/ Abort
 Spec == Init /\ [][Next]_vars
 
 AtEnd == l > 1 /\ (l = Len(Log) + 1 \/ Log[l].tr # tr)
